@@ -341,6 +341,7 @@ fn single_player_iter<'a, const FIRST: bool>(
     );
 
     // update all infosets
+    work.work.clear();
     work.payoffs.clear();
     chance_infosets
         .iter_mut()
